@@ -5,7 +5,7 @@ from .common import TRUSTED, Ctx
 
 def check(rep):
     ctx = Ctx(rep)
-    PR.rule_compiles(ctx, rid="C14.BOTH-LAYOUTS-PARSE")
+    PR.rule_compiles(ctx, rid="C14.BOTH-LAYOUTS-PARSE", text_only=True)
     PR.rule_layout_names(ctx)
     from . import evalrules as ER
     ER.rule_call_forwards(ctx, rid="C14.EVALUATOR-FORWARDS", no_try=True)
